@@ -2,6 +2,7 @@ import Thanos.Model.Labels
 import Thanos.Model.Frames
 import Thanos.Model.StoreSpec
 import Thanos.Lemmas.Labels
+import Thanos.Lemmas.StoreSpec
 import Thanos.Lemmas.Frames
 import Thanos.Lemmas.FramesBudget
 import Thanos.Generated.Facts
@@ -245,11 +246,7 @@ theorem C08_contradiction_bucket (blocks : List Block) (r : Req)
   unfold bucketSeries
   rw [List.flatMap_eq_nil_iff]
   intro b hb
-  have hb' : b ∈ blocks := by
-    unfold selected at hb
-    split at hb
-    · simp at hb
-    · exact (List.mem_filter.mp hb).1
+  have hb' : b ∈ blocks := (List.mem_filter.mp (mem_selected blocks r b hb)).1
   exact C08_contradiction_block _ b r (h b hb')
 
 /-- every series the specification serves is the completion of a stored series -/
@@ -277,11 +274,7 @@ theorem C08_series_from_store_bucket (blocks : List Block) (r : Req) :
   intro e he
   unfold bucketSeries at he
   obtain ⟨b, hb, heb⟩ := List.mem_flatMap.mp he
-  have hb' : b ∈ blocks := by
-    unfold selected at hb
-    split at hb
-    · simp at hb
-    · exact (List.mem_filter.mp hb).1
+  have hb' : b ∈ blocks := (List.mem_filter.mp (mem_selected blocks r b hb)).1
   refine ⟨b, hb', ?_⟩
   unfold blockSeries at heb
   split at heb
